@@ -72,7 +72,7 @@ func keyTypeOf(spec *synth.Spec, f *synth.Field) string {
 }
 
 // renderCrudHarness renders the table bindings of the child harness.
-func renderCrudHarness(spec *synth.Spec, model *sqlModel, ddl string) string {
+func renderCrudHarness(spec *synth.Spec, model *sqlModel, ddl string, sets bool) string {
 	var sb strings.Builder
 	sb.WriteString("package " + spec.Root().Name + "\n")
 	sb.WriteString(child.CrudHarnessStatic)
@@ -193,6 +193,13 @@ func renderCrudHarness(spec *synth.Spec, model *sqlModel, ddl string) string {
 			convIDs := fmt.Sprintf("conv := make([]%s, len(ids)); for i, k := range ids { conv[i] = %s(k) }", idT, idT)
 			fmt.Fprintf(&sb, "\t\tInsert: func(db DB, row any) (any, error) { return row.(%s).Insert(db) },\n", T)
 			fmt.Fprintf(&sb, "\t\tIDsOf: func(rows []any) []int64 { m := make(%ss, len(rows)); for _, r := range rows { it := r.(%s); m[it.%s] = it }; got := m.IDs(); out := make([]int64, len(got)); for i, k := range got { out[i] = int64(k) }; return out },\n", T, T, tb.Primary.Name)
+			if !strings.Contains(idT, ".") {
+				// helpers named after the ID type: <ID>ArrayToPQ always, <ID>Set with generate-sets
+				fmt.Fprintf(&sb, "\t\tArrayToPQ: func(ids []int64) []int64 { %s; return []int64(%sArrayToPQ(conv)) },\n", convIDs, idT)
+				if sets {
+					fmt.Fprintf(&sb, "\t\tSetOps: func(ids []int64, probe int64) (int, bool, []int64, bool, []int64) { %s; back := func(ks []%s) []int64 { out := make([]int64, len(ks)); for i, k := range ks { out[i] = int64(k) }; return out }; s := New%sSetFrom(conv); n, has, keys := len(s), s.Has(%s(probe)), back(s.Keys()); s.Add(%s(probe)); return n, has, keys, s.Has(%s(probe)), back(s.Keys()) },\n", convIDs, idT, idT, idT, idT, idT)
+				}
+			}
 			fmt.Fprintf(&sb, "\t\tSelect: func(db DB, id int64) (any, error) { return Select%s(db, %s(id)) },\n", T, idT)
 			fmt.Fprintf(&sb, "\t\tSelectMany: func(db DB, ids []int64) ([]any, error) { %s; m, err := Select%ss(db, conv...); if err != nil { return nil, err }; return %s, nil },\n", convIDs, T, rowsConv("m", true))
 			fmt.Fprintf(&sb, "\t\tUpdate: func(db DB, row any) (any, error) { return row.(%s).Update(db) },\n", T)
@@ -257,7 +264,7 @@ func c05Check(c execCase, r *h.Rec) error {
 	}
 	res, err := child.Run(c.Spec, scratch(), child.Options{
 		Extra:      map[string]string{"zz_crud_gen.go": crudFixed, "zz_unions_gen.go": unionsFixed},
-		ExtraTests: map[string]string{"zz_verif_harness_test.go": generic, "zz_verif_crud_test.go": renderCrudHarness(c.Spec, model, ddl)},
+		ExtraTests: map[string]string{"zz_verif_harness_test.go": generic, "zz_verif_crud_test.go": renderCrudHarness(c.Spec, model, ddl, c.Seed%2 == 0)},
 		TestRun:    "TestVerifCRUD", Seed: c.Seed, Checks: histories, NeedPQ: true, Timeout: 240 * time.Second,
 	})
 	if err != nil {
@@ -318,7 +325,7 @@ func c05Check(c execCase, r *h.Rec) error {
 func TestC05(t *testing.T) {
 	h.Main(t, h.Prop[execCase]{
 		ID: "C05",
-		Rule: "rapid model files (primary tables with an id of int64 / local ID type, link tables, foreign keys by ID type / tag / sql.NullInt64 / local wrapper with ON DELETE actions, columns of every SQL kind incl. named arrays, composites, jsonb, dates, guards; UNIQUE / PRIMARY KEY / _SELECT KEY comments) are compiled with the real sqlcrud (generate-sets on/off) and gounions outputs and executed against the mini engine loaded with the generated create script (jsonb CHECKs evaluated by the validator interpreter); a rapid state machine (in the child) draws insert / select / selectAll / selectMany / update / delete / deleteMany / link delete / InsertMany (COPY) / by-foreign-key / by-unique / by-select-key calls with valid random rows and compares every result, error class and a final full scan with a map model (unique conflicts, ON DELETE CASCADE / SET NULL / refusal mirrored); the engine checks tables, columns, $1..$n placeholders vs arguments and column order on every statement; " +
+		Rule: "rapid model files (primary tables with an id of int64 / local ID type, link tables, foreign keys by ID type / tag / sql.NullInt64 / local wrapper with ON DELETE actions, columns of every SQL kind incl. named arrays, composites, jsonb, dates, guards; UNIQUE / PRIMARY KEY / _SELECT KEY comments) are compiled with the real sqlcrud (generate-sets on/off) and gounions outputs and executed against the mini engine loaded with the generated create script (jsonb CHECKs evaluated by the validator interpreter); a rapid state machine (in the child) draws insert / select / selectAll / selectMany / update / delete / deleteMany / link delete / InsertMany (COPY) / by-foreign-key / by-unique / by-select-key calls and the pure Go helpers (IDs(), <F>s(), By<F>(), <ID>ArrayToPQ, New<ID>SetFrom / Add / Has / Keys against a map of the distinct ids) with valid random rows and compares every result, error class and a final full scan with a map model (unique conflicts, ON DELETE CASCADE / SET NULL / refusal mirrored); the engine checks tables, columns, $1..$n placeholders vs arguments and column order on every statement; " +
 			"non-trivial = a history with an insert, a non-empty read and an update/delete; distinct by (schema hash, history hash)",
 		Assumes: []string{
 			"the database is engine/minipg (+ engine/pq standing in for lib/pq): 'a database that implements exactly the tables the generator emits'",
